@@ -211,11 +211,37 @@ def extract(repo):
     for k in ("isAction", "actionDefault", "startTest", "rootTest", "plainElse"):
         lean.append("def %s : String := %s" % (k, _q(add[k])))
     lean.append("")
+    # the three tests of `Task.add` as Lean functions (over what the models keep of a message), when recognised
+    lean.append("/-- `is_action` of `Task.add`: `%s` -/" % ("message_dict.get(ACTION_TYPE_FIELD) is not None" if add["isAction"] != "unrecognised" else "?"))
+    lean.append("def isActionTest (actionType : Option String) : Bool :=")
+    lean.append("  " + ("actionType.isSome" if add["isAction"] != "unrecognised" else "PyList.unrecognised"))
+    lean.append("")
+    lean.append("/-- the test that selects `_start`: `message_dict[ACTION_STATUS_FIELD] == STARTED_STATUS` (`STARTED_STATUS = %s`) -/" % _q(started_const(repo)))
+    lean.append("def isStartTest (status : String) : Bool :=")
+    lean.append("  " + (("status == %s" % _q(started_const(repo))) if add["startTest"] != "unrecognised" and started_const(repo) else "PyList.unrecognised"))
+    lean.append("")
+    lean.append("/-- the single-message task: `written_message.task_level.level == [1]` -/")
+    lean.append("def isRootMessageTest (level : List Nat) : Bool :=")
+    lean.append("  " + ("level == [1]" if add["rootTest"] != "unrecognised" else "PyList.unrecognised"))
+    lean.append("")
     lean.append("/-- `WrittenMessage` defines `__bool__` or `__len__` (then `node.end_message and ...` would not read `is not None`) -/")
     lean.append("def writtenMessageHasTruthHooks : Bool := %s" % ("true" if truth or truth is None else "false"))
     lean.append("")
     lean.append("end Eliot.Generated.ParseRule")
     return "ParseRule.lean", "\n".join(lean) + "\n", dict(problems=problems, candidate=cand, loop=loop, order=order, parents=ens, add=add)
+
+
+def started_const(repo):
+    """the value of STARTED_STATUS in eliot/_action.py (a string literal), or "" """
+    try:
+        tree = ast.parse((Path(repo) / "eliot" / "_action.py").read_text())
+        for n in tree.body:
+            if isinstance(n, ast.Assign) and len(n.targets) == 1 and isinstance(n.targets[0], ast.Name) and n.targets[0].id == "STARTED_STATUS" \
+                    and isinstance(n.value, ast.Constant) and isinstance(n.value.value, str):
+                return n.value.value
+    except Exception:  # noqa
+        pass
+    return ""
 
 
 def _q(s):
